@@ -39,6 +39,7 @@ inline std::vector<cell_type_param_ptr> make_types(const Plan& pl) {
         int nft = (k == 0) ? std::max(3, pl.geti("nft", 3)) : std::max(1, pl.geti("nft_other", 1));
         t[k] = make_cell_type(k, nft, 1e-5);
         t[k]->max_pressure_ = pl.get("max_pressure", 1e300);
+        if (pl.p.count("density")) t[k]->mass_density_ = pl.get("density");
         t[k]->area_elasticity_modulus_ = pl.get("area_elasticity", 0);
         t[k]->angle_regularization_factor_ = pl.get("angle_reg", 0);
         t[k]->surface_coupling_max_curvature_ = pl.get("max_curvature", 2.5e6);
